@@ -72,7 +72,7 @@ def run(tier, seed):
     # (ranks, OpenMP threads, delay seed, flavour)
     if tier == "quick":
         configs = [(1, 1, 0, "P-real"), (2, 1, 0, "P-real"), (3, 4, seed * 11 + 1, "P-real"), (4, 1, seed * 11 + 2, "P-real"), (2, 4, seed * 11 + 3, "P-real"), (3, 1, seed * 11 + 4, "P-cplx")]
-        timeout = 120
+        timeout = 60
     else:
         configs = []
         for i, P in enumerate([1, 2, 3, 4, 5, 6, 7, 8, 11, 16]):
